@@ -57,7 +57,7 @@ ASSUMPTIONS = [
     'requested non-zero mag_noise is honoured (only that the reported attribute is the applied one; replacements are counted '
     'in coverage class mag_noise:request-replaced)',
 ]
-REQUIRED_CLASSES = ['mode:random', 'mode:given', 'gyr_noise=0', 'acc_noise=0', 'mag_noise=0', 'gyr_noise>0', 'acc_noise>0',
+REQUIRED_CLASSES = ['given:near-pole', 'given:near-unit rows', 'in_degrees:other carrier', 'mode:random', 'mode:given', 'gyr_noise=0', 'acc_noise=0', 'mag_noise=0', 'gyr_noise>0', 'acc_noise>0',
                     'mag_noise>0', 'in_degrees', 'radians', 'normalized_mag', 'raw_mag', 'refs:default', 'refs:explicit',
                     'mag_noise:request-honoured', 'N=10', 'given:piecewise', 'given:through-pole', 'integration:tight-bound']
 
@@ -88,12 +88,30 @@ def _traj_names():
     names = ['still']
     names += [f'ax{j}r{r:g}' for j in range(len(A.AXES())) for r in RATES]
     names += ['pw1', 'pw2', 'pole']
+    # nose-down / nose-up within a fraction of a degree of the vertical (never exactly on it), heading and roll generic
+    names += ['npole', 'ppole']
+    # trajectories whose rows are almost but not exactly unit (rounded to 6 decimals; rescaled by 1 + 3e-6): ground truth = the normalised rows
+    names += ['ax5r1~r6', 'pw1~s', 'ax11r3~s', 'pw2~r6']
     return names
+
+
+def _raw(name, Qg):
+    """The array actually handed to the library for trajectory `name` (Qg = its unit rows)."""
+    if name.endswith('~r6'):
+        return np.round(Qg, 6)
+    if name.endswith('~s'):
+        return Qg * (1.0 + 3e-6)
+    return Qg
 
 
 def _given(name, N, freq, q0):
     """Deterministic (N,4) unit-quaternion trajectory; body rates are bounded by 3 rad/s (pole: pi/100 rad per step)."""
     dt = 1.0 / freq
+    name = name.split('~')[0]
+    if name in ('npole', 'ppole'):
+        sg = -1.0 if name == 'npole' else 1.0
+        pitch = sg * (0.5 * math.pi - 1.7e-4) + 5e-4 * (np.arange(N) - N // 2)
+        return np.array([rq.rpy2q(0.7, float(pt), 2.5) for pt in pitch])
     if name == 'still':
         return np.tile(q0, (N, 1))
     if name.startswith('ax'):
@@ -146,12 +164,16 @@ def _construct(rng, quats, N, freq, kw):
     return s, rec
 
 
-def _kwargs(gl, al, ml, deg, nmag, refs, span=None, yaw=None):
+def _kwargs(gl, al, ml, deg, nmag, refs, span=None, yaw=None, degc='py'):
     kw = {}
+    if degc == 'np':          # the switch carried by a numpy boolean / a plain integer instead of a Python bool
+        kw['in_degrees'] = np.bool_(bool(deg))
+    elif degc == 'int':
+        kw['in_degrees'] = int(deg)
     if GYR[gl] is not None: kw['gyr_noise'] = GYR[gl]
     if ACC[al] is not None: kw['acc_noise'] = ACC[al]
     if MAG[ml] is not None: kw['mag_noise'] = MAG[ml]
-    if deg: kw['in_degrees'] = True
+    if deg and degc == 'py': kw['in_degrees'] = True
     if nmag: kw['normalized_mag'] = True
     if REFS[refs] is not None:
         kw['reference_gravitational_vector'] = REFS[refs][0].copy()
@@ -444,7 +466,10 @@ def job_given(ctx, names, N, freq, q0name, rngs, full):
     q0 = np.array([1.0, 0.0, 0.0, 0.0]) if q0name == 'I' else A.MENU[int(q0name[1:])].copy()
     for ti, name in enumerate(names):
         Qg = _given(name, N, float(freq), q0)
+        Qraw = _raw(name, Qg)
+        Qg = Qraw / np.sqrt((Qraw * Qraw).sum(axis=1))[:, None]
         typ = 'QA' if (ti + (q0name != 'I')) % 2 == 0 else 'nd'
+        degc = ('py', 'np', 'int')[ti % 3]
         first = True
         for rng in rngs:
             for combo in _noise_menu(full):
@@ -454,12 +479,15 @@ def job_given(ctx, names, N, freq, q0name, rngs, full):
                         gl, al, ml = combo
                         refs = 'A' if (deg + nmag + ti) % 2 == 0 else 'def'
                         key = (f'given traj={name} N={N} f={freq:g} q0={q0name} typ={typ} refs={refs} gyr={gl} acc={al} mag={ml} '
-                               f'deg={deg} nmag={nmag} rng={rng}')
-                        build = lambda: _construct(rng, (typ, Qg), N, float(freq), _kwargs(gl, al, ml, deg, nmag, refs))
+                               f'deg={deg}' + ('' if degc == 'py' else f'(as {degc})') + f' nmag={nmag} rng={rng}')
+                        build = lambda: _construct(rng, (typ, Qraw), N, float(freq), _kwargs(gl, al, ml, deg, nmag, refs, degc=degc))
                         facts = _case(ctx, key, build, N, float(freq), combo, deg, nmag, refs, given=Qg)
                         ctx.cls('mode:given'); ctx.cls('refs:default' if refs == 'def' else 'refs:explicit')
                         if name in ('pw1', 'pw2'): ctx.cls('given:piecewise')
                         if name == 'pole': ctx.cls('given:through-pole')
+                        if name in ('npole', 'ppole'): ctx.cls('given:near-pole')
+                        if '~' in name: ctx.cls('given:near-unit rows')
+                        if degc != 'py': ctx.cls('in_degrees:other carrier')
                         if facts is None:
                             continue
                         if facts['moving']:
